@@ -63,6 +63,56 @@ def tie_cases(N):
         for n in range(0, 4 + 1):                       # TreeNode default capacity: the root stays a leaf
             for k in range(-1, n + 4):
                 cases.append('ts %s %d %d' % (cat, n, k))
+    # part 2 mechanisms (Effects2.v): crews / node params across MergeTo-into-empty, DataTable and HashMultiMap copy constructors
+    for k, m in ((1, 0), (1, 1), (0, 0)):
+        for f in range(-1, 7):
+            cases.append('crew %d %d %d' % (k, m, f))
+    for a in range(0, 4):
+        for b in range(0, 4):
+            for f in range(-1, a + b + 1):
+                cases.append('pools %d %d %d' % (a, b, f))
+    for c in (2, 3, 4, 5):                              # two-level trees: root with c-1 items, c leaves of 2 items
+        for j in range(-1, 3 * c):
+            cases.append('ts2 %d %d' % (c, j))
+    for n in (0, 1, 3, 4, 5, 9):                        # SegmentedArray range constructor, 4 items per segment
+        for c in range(-1, n + 1):
+            cases.append('sa %d %d' % (n, c))
+    for n in range(0, min(N, 6) + 1):
+        for c in range(-1, 2 * n + 1):
+            cases.append('dt %d %d' % (n, c))
+        for c in range(-1, 3 * n + 1):
+            cases.append('hmm %d %d' % (n, c))
+    return cases
+
+
+def grow_cases(ctx, harness):
+    """HashSet growth: the real growth points are probed first (flags), then failure indices are chosen so that no insertion
+    BEFORE a growth point fails (that would shift the real growth points, which the flag-driven model does not follow):
+    copies of a migration (copy-only items) and insertions after the last growth"""
+    cases = []
+    path = os.path.join(ctx.build, 'growprobe.cases')
+    ns = (50, 95)
+    open(path, 'w').write(''.join('growprobe ntm %d\n' % n for n in ns))
+    rc, lines, err = ctx.run_lines([harness], path)
+    for n, line in zip(ns, lines):
+        flags = line.split()[0] if line.split() else ''
+        if len(flags) != n or set(flags) - set('01'):
+            continue
+        gs = [i for i, ch in enumerate(flags) if ch == '1']
+        last = gs[-1] if gs else -1
+        ntm = [-1] + [c for c in (last + 1, last + 2, n - 1) if last < c < n]
+        cpo, counter = [-1], 0
+        for j in range(n):
+            counter += 1                                  # the insertion's own copy is copy number counter-1
+            if flags[j] == '1':
+                lo, hi = counter, counter + j - 1         # j items are migrated, each by a copy
+                cpo += sorted(set([lo, lo + 1, (lo + hi) // 2, hi - 1, hi]))
+                counter += j
+        cpo += [counter - 1] if last >= 0 and last < n - 1 else []
+        for c in sorted(set(ntm)):
+            cases.append('grow ntm %s %d' % (flags, c))
+        for c in sorted(set(cpo)):
+            cases.append('grow cpo %s %d' % (flags, c))
     return cases
 
 
@@ -199,7 +249,7 @@ def _tree_hash(ctx):
 def build_all(ctx):
     """builds the 4 harness binaries in parallel; a binary is reused only when the content hash of all its inputs (headers of the
     tree under test included) is unchanged, so a changed /repo always means a fresh build"""
-    jobs = [('harness.cpp', 'harness', [])] + [('harness_hist.cpp', 'hist%d' % i, ['-DC03_PART=%d' % i]) for i in (1, 2, 3)]
+    jobs = [('harness.cpp', 'harness', ['-DC03_TIE_PART=1']), ('harness.cpp', 'harness2', ['-DC03_TIE_PART=2'])] + [('harness_hist.cpp', 'hist%d' % i, ['-DC03_PART=%d' % i]) for i in (1, 2, 3)]
     san = '.san' if ctx.tier == 'thorough' else ''
     key = _tree_hash(ctx) + san
     stamp = os.path.join(ctx.build, 'harness.stamp' + san)
@@ -214,6 +264,7 @@ def build_all(ctx):
         if all(res.get(x) for x in paths):
             open(stamp, 'w').write(key)
     exes = {i: res.get('hist%d' % i) for i in (1, 2, 3)}
+    exes['tie2'] = res.get('harness2')
     return res.get('harness'), exes
 
 
@@ -222,8 +273,10 @@ def replay(ctx, rp):
     if not case:
         print('replay has no concrete case (no-failing-input-found): broken stages were', list(rp.get('broken', {}).keys())); return 1
     harness, exes = build_all(ctx)
+    if case.split()[0] in ('dt', 'hmm'):
+        harness = exes.get('tie2')
     have_model = ctx.prove() and ctx.extract()
-    if case.split()[0] in ('om', 'arr', 'hs', 'ts'):
+    if case.split()[0] in ('om', 'arr', 'hs', 'ts', 'crew', 'pools', 'ts2', 'sa', 'grow', 'dt', 'hmm'):
         if harness is None or not have_model:
             print('cannot build harness/model'); return 2
         mism, _ = ctx.correspond('replay', [case], [harness], [ctx.model_exe], stage=False)
@@ -258,14 +311,20 @@ def run(ctx):
                         'whole-container statement (all operations, all histories) is checked by the proved monitor on generated histories, not proved']
     ctx.prove()
     harness, exes = build_all(ctx)
-    if harness is None or any(v is None for v in exes.values()):
+    harness2 = exes.pop('tie2', None)
+    if harness is None or harness2 is None or any(v is None for v in exes.values()):
         ctx.stage('build-harness', False, getattr(ctx, 'last_cxx_error', ''))
     have_model = bool(ctx.stages.get('prove', {}).get('ok')) and ctx.extract()
     N = MECH_N_QUICK if ctx.quick() else MECH_N_THOROUGH
     # ---- tie: micro-correspondence of event traces
     if harness is not None and have_model:
-        cases = tie_cases(N)
-        mism, _ = ctx.correspond('micro-correspondence', cases, [harness], [ctx.model_exe])
+        cases = tie_cases(N) + grow_cases(ctx, harness)
+        part2 = [c for c in cases if c.split()[0] in ('dt', 'hmm')]
+        part1 = [c for c in cases if c.split()[0] not in ('dt', 'hmm')]
+        mism, _ = ctx.correspond('micro-correspondence', part1, [harness], [ctx.model_exe])
+        if harness2 is not None:
+            mism2, _ = ctx.correspond('micro-correspondence-2', part2, [harness2], [ctx.model_exe])
+            mism = mism + mism2
         ctx.tie_obligations.append({'name': 'L2 model trace == real code trace on %d (mechanism, category, count, k) cases' % len(cases), 'ok': not mism})
         for c in cases:
             if not c.endswith(' -1'):
@@ -273,7 +332,7 @@ def run(ctx):
         for (i, c, a, b) in mism[:3]:
             ctx.violation('resource-machine model and implementation disagree on the event trace', {'case': c, 'impl': a, 'model': b,
                           'cmd': 'echo "%s" | build/C03/harness' % c}, found_input=True)
-        ctx.coverage.setdefault('input_distribution', {})['tie_cases'] = {k: sum(1 for c in cases if c.split()[0] == k) for k in ('om', 'arr', 'hs', 'ts')}
+        ctx.coverage.setdefault('input_distribution', {})['tie_cases'] = {k: sum(1 for c in cases if c.split()[0] == k) for k in ('om', 'arr', 'hs', 'ts', 'crew', 'pools', 'ts2', 'sa', 'grow', 'dt', 'hmm')}
         for c in cases[::max(1, len(cases) // 4)][:4]:
             ctx.add_sample(c)
     # ---- oracle / search on the real code
